@@ -4,6 +4,7 @@ package main
 // dispatch, and the default (havoc) treatment of uncontracted callees.
 
 import (
+	"go/ast"
 	"fmt"
 	"go/types"
 	"os"
@@ -91,7 +92,48 @@ func (x *Exec) atCallAssertionsArgs(s *State, site ssa.Instruction, calleeName s
 	}
 }
 
+// bindResult wraps k so that the result of a call named by a bind clause of
+// the calling function's contract becomes visible to its later clauses.
+func (x *Exec) bindResult(s *State, site ssa.Instruction, calleeName string, k func(*State, Val)) func(*State, Val) {
+	if len(s.frames) == 0 {
+		return k
+	}
+	ct := x.P.contractFor(s.top().fn)
+	if ct == nil || len(ct.Binds) == 0 {
+		return k
+	}
+	var hits []*BindClause
+	for _, b := range ct.Binds {
+		if strings.Contains(calleeName, b.Callee) && (b.Site == "" || strings.Contains(x.label(s, site), b.Site)) {
+			hits = append(hits, b)
+		}
+	}
+	if len(hits) == 0 {
+		return k
+	}
+	depth := len(s.frames)
+	return func(s2 *State, v Val) {
+		if len(s2.frames) == depth && s2.top().fn == x.fn {
+			for _, b := range hits {
+				if s2.binds == nil {
+					s2.binds = map[string]Val{}
+				}
+				s2.binds[b.Name] = v
+				x.clauseHit[b] = true
+			}
+		}
+		k(s2, v)
+	}
+}
+
 func (x *Exec) callValue(s *State, site ssa.Instruction, cc *ssa.CallCommon, fv Val, args []Val, k func(*State, Val)) {
+	if cc.IsInvoke() {
+		k = x.bindResult(s, site, typeName(cc.Value.Type())+"."+cc.Method.Name(), k)
+	} else if f, ok := fv.(*FuncV); ok {
+		if fn, ok := f.Fn.(*ssa.Function); ok {
+			k = x.bindResult(s, site, fn.String(), k)
+		}
+	}
 	if cc.IsInvoke() {
 		x.atCallAssertionsArgs(s, site, typeName(cc.Value.Type())+"."+cc.Method.Name(), args)
 	} else if f, ok := fv.(*FuncV); ok {
@@ -388,6 +430,11 @@ func (x *Exec) applyContract(s *State, site ssa.Instruction, fn *ssa.Function, c
 		env2.bindResultsSig(sig, ret)
 	}
 	for _, e := range c.Ensures {
+		if mentionsBind(c, e.Expr) {
+			// about a value only the callee's own body can name (bind): says
+			// nothing a caller could use
+			continue
+		}
 		ret = env2.assumeEnsures(e.Expr, ret, sig)
 	}
 	if s.dead {
@@ -608,6 +655,11 @@ func (x *Exec) appendBuiltin(s *State, site ssa.Instruction, cc *ssa.CallCommon,
 		}
 		s.assume(Forall([]*Term{i}, Implies(And(Ge(i, Int(0)), Lt(i, a.Len)), Eq(Select(nt, i), Select(base, Add(a.Off, i))))))
 		s.assume(Forall([]*Term{i}, Implies(And(Ge(i, a.Len), Lt(i, Add(a.Len, b.Len))), Eq(Select(nt, i), Select(bt, Add(b.Off, Sub(i, a.Len)))))))
+		// the same two facts indexed by the source position (so that a known
+		// source element finds its place in the result)
+		m := Var("m!a", SInt)
+		s.assume(Forall([]*Term{m}, Implies(And(Ge(m, a.Off), Lt(m, Add(a.Off, a.Len))), Eq(Select(nt, Sub(m, a.Off)), Select(base, m)))))
+		s.assume(Forall([]*Term{m}, Implies(And(Ge(m, b.Off), Lt(m, Add(b.Off, b.Len))), Eq(Select(nt, Add(a.Len, Sub(m, b.Off))), Select(bt, m)))))
 	}
 	s.heap[o.id] = &ArrV{Elem: a.Elem, T: nt}
 	ln := Add(a.Len, b.Len)
@@ -767,4 +819,22 @@ func debugChan(x *Exec, s *State, cv *ChanV, need *ChanInvDecl, where string) {
 	}
 	cs, _ := x.E.objVal(s, cv.Obj).(*ChanStore)
 	fmt.Fprintf(os.Stderr, "chan %s need=%s @%s: engine=%d store=%v trace=%v\n", cv.Obj.name, need.sig(), where, len(x.E.chanInvs[cv.Obj.id]), cs, s.trace)
+}
+
+func mentionsBind(c *Contract, e ast.Expr) bool {
+	if len(c.Binds) == 0 {
+		return false
+	}
+	hit := false
+	ast.Inspect(e, func(n ast.Node) bool {
+		if id, ok := n.(*ast.Ident); ok {
+			for _, b := range c.Binds {
+				if b.Name == id.Name {
+					hit = true
+				}
+			}
+		}
+		return !hit
+	})
+	return hit
 }
